@@ -12,10 +12,10 @@ Theorem C07_complete_history_sound :
   tree_ok t -> wf_root t = true ->
   forall nlabel_of : bool -> N -> nlabel,
   (forall f v, llen (nlabel_of f v) = 256 /\ WF (nlabel_of f v) /\ LW (nlabel_of f v)) ->
-  (forall proof f v out, vrf_check pk proof (label_input_hash cfg l f v) = Some out -> NL out 256 = nlabel_of f v) ->
+  (forall proof f v out, v < 2 ^ 64 -> vrf_check pk proof (label_input_hash cfg l f v) = Some out -> NL out 256 = nlabel_of f v) ->
   forall (n : N) (val_of : N -> bytes) (ep_of : N -> N),
   (forall v, Len64 (val_of v)) -> (forall v, ep_of v < 2 ^ 64) ->
-  (forall y v, In y (leaves t) -> lf_label y = nlabel_of true v ->
+  (forall y v, v < 2 ^ 64 -> In y (leaves t) -> lf_label y = nlabel_of true v ->
      1 <= v /\ v <= n /\ lf_value y = fresh_value cfg ck (nlabel_of true v) v (val_of v) /\ lf_epoch y = ep_of v) ->
   (forall v, Len64 (c_commitment_nonce cfg ck (nl_to_bytes (nlabel_of true v)) v (val_of v))) ->
   (forall v, 1 <= v -> v <= n -> In (nlabel_of true v) (map lf_label (leaves t))) ->
@@ -34,10 +34,10 @@ Theorem C07_entries_true :
   tree_ok t -> wf_root t = true ->
   forall nlabel_of : bool -> N -> nlabel,
   (forall f v, llen (nlabel_of f v) = 256 /\ WF (nlabel_of f v) /\ LW (nlabel_of f v)) ->
-  (forall proof f v out, vrf_check pk proof (label_input_hash cfg l f v) = Some out -> NL out 256 = nlabel_of f v) ->
+  (forall proof f v out, v < 2 ^ 64 -> vrf_check pk proof (label_input_hash cfg l f v) = Some out -> NL out 256 = nlabel_of f v) ->
   forall (n : N) (val_of : N -> bytes) (ep_of : N -> N),
   (forall v, Len64 (val_of v)) -> (forall v, ep_of v < 2 ^ 64) ->
-  (forall y v, In y (leaves t) -> lf_label y = nlabel_of true v ->
+  (forall y v, v < 2 ^ 64 -> In y (leaves t) -> lf_label y = nlabel_of true v ->
      1 <= v /\ v <= n /\ lf_value y = fresh_value cfg ck (nlabel_of true v) v (val_of v) /\ lf_epoch y = ep_of v) ->
   (forall v, Len64 (c_commitment_nonce cfg ck (nl_to_bytes (nlabel_of true v)) v (val_of v))) ->
   forall us prev rs, Forall up_ok us ->
@@ -56,10 +56,10 @@ Theorem C07_recent_history_sound :
   tree_ok t -> wf_root t = true ->
   forall nlabel_of : bool -> N -> nlabel,
   (forall f v, llen (nlabel_of f v) = 256 /\ WF (nlabel_of f v) /\ LW (nlabel_of f v)) ->
-  (forall proof f v out, vrf_check pk proof (label_input_hash cfg l f v) = Some out -> NL out 256 = nlabel_of f v) ->
+  (forall proof f v out, v < 2 ^ 64 -> vrf_check pk proof (label_input_hash cfg l f v) = Some out -> NL out 256 = nlabel_of f v) ->
   forall (n : N) (val_of : N -> bytes) (ep_of : N -> N),
   (forall v, Len64 (val_of v)) -> (forall v, ep_of v < 2 ^ 64) ->
-  (forall y v, In y (leaves t) -> lf_label y = nlabel_of true v ->
+  (forall y v, v < 2 ^ 64 -> In y (leaves t) -> lf_label y = nlabel_of true v ->
      1 <= v /\ v <= n /\ lf_value y = fresh_value cfg ck (nlabel_of true v) v (val_of v) /\ lf_epoch y = ep_of v) ->
   (forall v, Len64 (c_commitment_nonce cfg ck (nl_to_bytes (nlabel_of true v)) v (val_of v))) ->
   (forall v, 1 <= v -> v <= n -> In (nlabel_of true v) (map lf_label (leaves t))) ->
@@ -83,14 +83,14 @@ Theorem C07_complete_history_sound_allow_missing :
   tree_ok t -> wf_root t = true ->
   forall nlabel_of : bool -> N -> nlabel,
   (forall f v, llen (nlabel_of f v) = 256 /\ WF (nlabel_of f v) /\ LW (nlabel_of f v)) ->
-  (forall proof f v out, vrf_check pk proof (label_input_hash cfg l f v) = Some out -> NL out 256 = nlabel_of f v) ->
+  (forall proof f v out, v < 2 ^ 64 -> vrf_check pk proof (label_input_hash cfg l f v) = Some out -> NL out 256 = nlabel_of f v) ->
   forall (n : N) (val_of : N -> bytes) (ep_of : N -> N),
   (forall v, Len64 (val_of v)) -> (forall v, ep_of v < 2 ^ 64) ->
-  (forall y v, In y (leaves t) -> lf_label y = nlabel_of true v ->
+  (forall y v, v < 2 ^ 64 -> In y (leaves t) -> lf_label y = nlabel_of true v ->
      1 <= v /\ v <= n /\ lf_value y = fresh_value cfg ck (nlabel_of true v) v (val_of v) /\ lf_epoch y = ep_of v) ->
   (forall v, Len64 (c_commitment_nonce cfg ck (nl_to_bytes (nlabel_of true v)) v (val_of v))) ->
   (forall v, 1 <= v -> v <= n -> In (nlabel_of true v) (map lf_label (leaves t))) ->
-  (forall y v, In y (leaves t) -> lf_label y = nlabel_of false v ->
+  (forall y v, v < 2 ^ 64 -> In y (leaves t) -> lf_label y = nlabel_of false v ->
      lf_value y = c_stale_value cfg /\ lf_epoch y = ep_of (v + 1)) ->
   D32 (c_stale_value cfg) ->
   (forall y, In y (leaves t) -> lf_epoch y < 2 ^ 64) ->
@@ -107,14 +107,14 @@ Theorem C07_recent_history_sound_allow_missing :
   tree_ok t -> wf_root t = true ->
   forall nlabel_of : bool -> N -> nlabel,
   (forall f v, llen (nlabel_of f v) = 256 /\ WF (nlabel_of f v) /\ LW (nlabel_of f v)) ->
-  (forall proof f v out, vrf_check pk proof (label_input_hash cfg l f v) = Some out -> NL out 256 = nlabel_of f v) ->
+  (forall proof f v out, v < 2 ^ 64 -> vrf_check pk proof (label_input_hash cfg l f v) = Some out -> NL out 256 = nlabel_of f v) ->
   forall (n : N) (val_of : N -> bytes) (ep_of : N -> N),
   (forall v, Len64 (val_of v)) -> (forall v, ep_of v < 2 ^ 64) ->
-  (forall y v, In y (leaves t) -> lf_label y = nlabel_of true v ->
+  (forall y v, v < 2 ^ 64 -> In y (leaves t) -> lf_label y = nlabel_of true v ->
      1 <= v /\ v <= n /\ lf_value y = fresh_value cfg ck (nlabel_of true v) v (val_of v) /\ lf_epoch y = ep_of v) ->
   (forall v, Len64 (c_commitment_nonce cfg ck (nl_to_bytes (nlabel_of true v)) v (val_of v))) ->
   (forall v, 1 <= v -> v <= n -> In (nlabel_of true v) (map lf_label (leaves t))) ->
-  (forall y v, In y (leaves t) -> lf_label y = nlabel_of false v ->
+  (forall y v, v < 2 ^ 64 -> In y (leaves t) -> lf_label y = nlabel_of false v ->
      lf_value y = c_stale_value cfg /\ lf_epoch y = ep_of (v + 1)) ->
   D32 (c_stale_value cfg) ->
   (forall y, In y (leaves t) -> lf_epoch y < 2 ^ 64) ->
@@ -151,10 +151,10 @@ Theorem C07_late_or_missing_stale_marker_fails :
   tree_ok t -> wf_root t = true ->
   forall nlabel_of : bool -> N -> nlabel,
   (forall f v, llen (nlabel_of f v) = 256 /\ WF (nlabel_of f v) /\ LW (nlabel_of f v)) ->
-  (forall proof f v out, vrf_check pk proof (label_input_hash cfg l f v) = Some out -> NL out 256 = nlabel_of f v) ->
+  (forall proof f v out, v < 2 ^ 64 -> vrf_check pk proof (label_input_hash cfg l f v) = Some out -> NL out 256 = nlabel_of f v) ->
   forall (n : N) (val_of : N -> bytes) (ep_of : N -> N),
   (forall v, Len64 (val_of v)) -> (forall v, ep_of v < 2 ^ 64) ->
-  (forall y v, In y (leaves t) -> lf_label y = nlabel_of true v ->
+  (forall y v, v < 2 ^ 64 -> In y (leaves t) -> lf_label y = nlabel_of true v ->
      1 <= v /\ v <= n /\ lf_value y = fresh_value cfg ck (nlabel_of true v) v (val_of v) /\ lf_epoch y = ep_of v) ->
   (forall v, Len64 (c_commitment_nonce cfg ck (nl_to_bytes (nlabel_of true v)) v (val_of v))) ->
   (forall v, 1 <= v -> v <= n -> In (nlabel_of true v) (map lf_label (leaves t))) ->
@@ -193,3 +193,77 @@ Example C07_K2_witness :
     key_history_verify (whatsapp k2_H) k2_vrf_check [] (snd eh) (fst eh) k2_user (k2_forge p) HComplete true = Some [VRes 0 1 []] /\
     key_history_verify (whatsapp k2_H) k2_vrf_check [] (snd eh) (fst eh) k2_user (k2_forge p) HComplete false = None.
 Proof. eexists. eexists. split; [vm_compute; reflexivity|]. split; [vm_compute; reflexivity|]. split; vm_compute; reflexivity. Qed.
+
+(* ------------------------------------------------------------------ at the directory level *)
+From Akd Require DirSoundReach.
+(* After ANY sequence of publish requests: whatever complete-history proof is presented against the
+   served epoch hash - if it verifies in Default mode, its result IS the label's stored account,
+   newest first (the list C03 shows the honest server's proof to yield); with AllowMissingValues it is
+   that account up to [amrel].  Premises as for C06_lookup_sound_in_every_reachable_state. *)
+Theorem C07_history_sound_in_every_reachable_state :
+  forall (cfg : config) (Bad : Prop), Binding cfg Bad ->
+  forall (ck : bytes) (vrf_label : bytes -> bool -> N -> option nlabel),
+  (forall l f v nl, vrf_label l f v = Some nl -> WF nl /\ canonical nl = true /\ llen nl = 256) ->
+  (forall l f v l' f' v' nl, vrf_label l f v = Some nl -> vrf_label l' f' v' = Some nl -> l = l' /\ f = f' /\ v = v') ->
+  forall (vrf_check : bytes -> bytes -> bytes -> option bytes) (pk l : bytes) (F : bool -> N -> nlabel),
+  (forall f v, llen (F f v) = 256 /\ WF (F f v) /\ LW (F f v)) ->
+  (forall f v nl, vrf_label l f v = Some nl -> nl = F f v) ->
+  (forall f v l' f' v', v < 2 ^ 64 -> vrf_label l' f' v' = Some (F f v) -> l' = l /\ f' = f /\ v' = v) ->
+  (forall proof f v out, v < 2 ^ 64 -> vrf_check pk proof (label_input_hash cfg l f v) = Some out -> NL out 256 = F f v) ->
+  (forall key lb ver value, Len64 (c_commitment_nonce cfg key lb ver value)) ->
+  D32 (c_stale_value cfg) ->
+  forall reqs,
+  let st := run_publishes cfg ck vrf_label dir_new reqs in
+  (forall s, In s (d_states st) -> Len64 (vr_value s)) -> d_epoch st < 2 ^ 64 ->
+  forall E p rs, hp_ok p ->
+  user_history (d_states st) l (d_epoch st) <> [] -> d_epoch st <= E -> E < 2 ^ 64 ->
+  key_history_verify cfg vrf_check pk (snd (epoch_hash cfg st)) E l p HComplete false = Some rs ->
+  rs = map DirSoundReach.entry_of_state (user_history (d_states st) l (d_epoch st)) \/ Bad.
+Proof. exact DirSoundReach.history_sound_reachable. Qed.
+Print Assumptions C07_history_sound_in_every_reachable_state.
+
+Theorem C07_history_sound_in_every_reachable_state_allow_missing :
+  forall (cfg : config) (Bad : Prop), Binding cfg Bad ->
+  forall (ck : bytes) (vrf_label : bytes -> bool -> N -> option nlabel),
+  (forall l f v nl, vrf_label l f v = Some nl -> WF nl /\ canonical nl = true /\ llen nl = 256) ->
+  (forall l f v l' f' v' nl, vrf_label l f v = Some nl -> vrf_label l' f' v' = Some nl -> l = l' /\ f = f' /\ v = v') ->
+  forall (vrf_check : bytes -> bytes -> bytes -> option bytes) (pk l : bytes) (F : bool -> N -> nlabel),
+  (forall f v, llen (F f v) = 256 /\ WF (F f v) /\ LW (F f v)) ->
+  (forall f v nl, vrf_label l f v = Some nl -> nl = F f v) ->
+  (forall f v l' f' v', v < 2 ^ 64 -> vrf_label l' f' v' = Some (F f v) -> l' = l /\ f' = f /\ v' = v) ->
+  (forall proof f v out, v < 2 ^ 64 -> vrf_check pk proof (label_input_hash cfg l f v) = Some out -> NL out 256 = F f v) ->
+  (forall key lb ver value, Len64 (c_commitment_nonce cfg key lb ver value)) ->
+  D32 (c_stale_value cfg) ->
+  forall reqs,
+  let st := run_publishes cfg ck vrf_label dir_new reqs in
+  (forall s, In s (d_states st) -> Len64 (vr_value s)) -> d_epoch st < 2 ^ 64 ->
+  forall E p rs, hp_ok2 p ->
+  user_history (d_states st) l (d_epoch st) <> [] -> d_epoch st <= E -> E < 2 ^ 64 ->
+  key_history_verify cfg vrf_check pk (snd (epoch_hash cfg st)) E l p HComplete true = Some rs ->
+  Forall2 amrel rs (map DirSoundReach.entry_of_state (user_history (d_states st) l (d_epoch st))) \/ Bad.
+Proof. exact DirSoundReach.history_sound_reachable_am. Qed.
+Print Assumptions C07_history_sound_in_every_reachable_state_allow_missing.
+
+(* MostRecent(r) at the directory level: exactly the first min(r, n) entries of the stored account -
+   the list C03's hist_data names for the same parameter *)
+Theorem C07_recent_history_sound_in_every_reachable_state :
+  forall (cfg : config) (Bad : Prop), Binding cfg Bad ->
+  forall (ck : bytes) (vrf_label : bytes -> bool -> N -> option nlabel),
+  (forall l f v nl, vrf_label l f v = Some nl -> WF nl /\ canonical nl = true /\ llen nl = 256) ->
+  (forall l f v l' f' v' nl, vrf_label l f v = Some nl -> vrf_label l' f' v' = Some nl -> l = l' /\ f = f' /\ v = v') ->
+  forall (vrf_check : bytes -> bytes -> bytes -> option bytes) (pk l : bytes) (F : bool -> N -> nlabel),
+  (forall f v, llen (F f v) = 256 /\ WF (F f v) /\ LW (F f v)) ->
+  (forall f v nl, vrf_label l f v = Some nl -> nl = F f v) ->
+  (forall f v l' f' v', v < 2 ^ 64 -> vrf_label l' f' v' = Some (F f v) -> l' = l /\ f' = f /\ v' = v) ->
+  (forall proof f v out, v < 2 ^ 64 -> vrf_check pk proof (label_input_hash cfg l f v) = Some out -> NL out 256 = F f v) ->
+  (forall key lb ver value, Len64 (c_commitment_nonce cfg key lb ver value)) ->
+  D32 (c_stale_value cfg) ->
+  forall reqs,
+  let st := run_publishes cfg ck vrf_label dir_new reqs in
+  (forall s, In s (d_states st) -> Len64 (vr_value s)) -> d_epoch st < 2 ^ 64 ->
+  forall E p rs r, hp_ok p ->
+  user_history (d_states st) l (d_epoch st) <> [] -> d_epoch st <= E -> E < 2 ^ 64 ->
+  key_history_verify cfg vrf_check pk (snd (epoch_hash cfg st)) E l p (HMostRecent r) false = Some rs ->
+  rs = map DirSoundReach.entry_of_state (firstn (N.to_nat r) (user_history (d_states st) l (d_epoch st))) \/ Bad.
+Proof. exact DirSoundReach.history_recent_sound_reachable. Qed.
+Print Assumptions C07_recent_history_sound_in_every_reachable_state.
